@@ -641,8 +641,9 @@ class Emitter:
     def is_func(s, nm): return nm in s.mod.funcs or nm in s.mod.decls
     def gname(s, nm):
         base = nm[1:]
-        if (nm in s.mod.decls and nm not in s.mod.funcs and not base.startswith(('_Z', '__', 'llvm.', '"'))):
-            return 'x_' + cid(nm)
+        if nm in s.mod.decls and nm not in s.mod.funcs and not base.startswith(('_Z', 'llvm.', '"')):
+            if not base.startswith('__') or base in ('__errno_location',) or base.startswith(('__isoc', '__strto', '__mem', '__str')):
+                return 'x_' + cid(nm)
         return cid(nm)
     def ref_global(s, nm):
         if s.is_func(nm):
@@ -753,19 +754,24 @@ class Emitter:
         w = o.append
         s.cur_loops = {}
         s.cur_defs = {ins.res: ins for b in f.blocks for ins in b.insts if ins.res is not None}
+        s.cur_res = f.name in getattr(s, 'resumable', ())
+        s.res_fields = []; s.res_pcs = []
         args = ', '.join('%s v_%s' % (s.ctype(t), cid(n)) for t, n in f.params) or 'void'
-        w('%s %s(%s) {' % (s.ctype(f.ret), s.gname(f.name), args))
+        if not s.cur_res:
+            w('%s %s(%s) {' % (s.ctype(f.ret), s.gname(f.name), args))
+        else:
+            w('@@RESUMABLE_HEAD@@')
         # declare all SSA results
-        decls = []
+        decls = []; rnames = []
         for b in f.blocks:
             for ins in b.insts:
                 if ins.res is not None:
                     t = s.result_type(ins)
                     if isinstance(t, TVoid): ins.res = None; continue
-                    decls.append('  %s v_%s;' % (s.ctype(t), cid(ins.res)))
+                    decls.append('  %s v_%s;' % (s.ctype(t), cid(ins.res))); rnames.append('v_' + cid(ins.res))
                     if ins.op == 'phi':
-                        decls.append('  %s p_%s;' % (s.ctype(t), cid(ins.res)))
-        o.extend(decls)
+                        decls.append('  %s p_%s;' % (s.ctype(t), cid(ins.res))); rnames.append('p_' + cid(ins.res))
+        if not s.cur_res: o.extend(decls)
         phis = {b.name: [i for i in b.insts if i.op == 'phi'] for b in f.blocks}
         def goto(frm, to):
             # parallel copy into p_ temps then jump; phi reads p_ at block head
@@ -843,9 +849,38 @@ class Emitter:
                 if ins.op == 'phi': continue
                 s.emit_inst(ins, b, w, goto)
         w('}')
+        if s.cur_res:
+            fn = s.gname(f.name)
+            head = ['struct frame_%s { int pc; int yield_point; %s' % (fn, '' if isinstance(f.ret, TVoid) else s.ctype(f.ret) + ' ret;')]
+            for t, n in f.params: head.append('  %s v_%s;' % (s.ctype(t), cid(n))); rnames.append('v_' + cid(n))
+            head += decls + ['  ' + x for x in s.res_fields] + ['};']
+            head.append('\n'.join('#define %s (F->%s)' % (n, n) for n in rnames))
+            head.append('int rstep_%s(struct frame_%s* F) {' % (fn, fn))
+            head.append('  switch (F->pc) { case 0: break; %s default: __ir_unreachable(); }' % ' '.join('case %d: goto R_%d;' % (k, k) for k in s.res_pcs))
+            i = o.index('@@RESUMABLE_HEAD@@')
+            o[i:i+1] = head
+            o.append('\n'.join('#undef %s' % n for n in rnames))
+        s.cur_res = False
         return '\n'.join(o)
 
     def val(s, t, v): return s.const(t, v)
+
+    def ptrdiff_operands(s, ins):
+        out = []
+        for v in (ins.a, ins.b):
+            if v[0] != 'l' or v[1] not in s.cur_defs: return None
+            d = s.cur_defs[v[1]]
+            if d.op != 'ptrtoint' or not (isinstance(d.tt, TInt) and d.tt.n == 64): return None
+            out.append(s.val(d.ft, d.a))
+        return out
+
+    def ret_stmt(s, expr):
+        if not getattr(s, 'cur_res', False):
+            return 'return%s;' % ('' if expr is None else ' ' + expr)
+        if expr is None or isinstance(s.cur_ret, TVoid): return '{ F->pc = -1; return 0; }'
+        return '{ F->ret = %s; F->pc = -1; return 0; }' % expr
+    def exc_ret(s):
+        return s.ret_stmt(None if isinstance(s.cur_ret, TVoid) else s.val(s.cur_ret, ('undef',)))
 
     def result_type(s, ins):
         op = ins.op
@@ -883,7 +918,11 @@ class Emitter:
     def emit_inst(s, ins, blk, w, goto):
         op = ins.op; m = s.mod
         R = 'v_' + cid(ins.res) if ins.res else None
-        if op in ('add','sub','mul','udiv','sdiv','urem','srem','and','or','xor','shl','lshr','ashr','fadd','fsub','fmul','fdiv'):
+        if op == 'sub' and isinstance(ins.ty, TInt) and ins.ty.n == 64 and s.ptrdiff_operands(ins):
+            # (ptrtoint a) - (ptrtoint b): keep it a pointer difference, which CBMC's symbolic execution can constant-fold
+            pa, pb = s.ptrdiff_operands(ins)
+            w('  %s = (%s == %s) ? (u64)0 : (u64)(%s - %s);' % (R, pa, pb, pa, pb))
+        elif op in ('add','sub','mul','udiv','sdiv','urem','srem','and','or','xor','shl','lshr','ashr','fadd','fsub','fmul','fdiv'):
             w('  %s = %s;' % (R, s.bin_expr(op, ins.ty, s.val(ins.ty, ins.a), s.val(ins.ty, ins.b))))
         elif op == 'icmp':
             w('  %s = %s;' % (R, s.icmp_expr(ins.pred, ins.ty, s.val(ins.ty, ins.a), s.val(ins.ty, ins.b))))
@@ -897,7 +936,11 @@ class Emitter:
         elif op == 'alloca':
             sz, al = m.size_align(ins.ty)
             nm = 'a_' + cid(ins.res)
-            if ins.n is None or ins.n[1][0] == 'int':
+            if getattr(s, 'cur_res', False) and (ins.n is None or ins.n[1][0] == 'int'):
+                cnt = 1 if ins.n is None else ins.n[1][1]
+                s.res_fields.append('u8 %s[%d] __attribute__((aligned(%d)));' % (nm, max(1, sz * cnt), max(al, 1)))
+                w('  %s = F->%s;' % (R, nm))
+            elif ins.n is None or ins.n[1][0] == 'int':
                 cnt = 1 if ins.n is None else ins.n[1][1]
                 w('  static u8 %s_dummy; u8 %s[%d] __attribute__((aligned(%d))); %s = %s;' % (nm, nm, max(1, sz * cnt), max(al, 1), R, nm))
             else:
@@ -926,8 +969,8 @@ class Emitter:
                 w('   case %s: { %s }' % (s.val(ins.ty, cv), goto(blk.name, lbl)))
             w('   default: { %s } }' % goto(blk.name, ins.default))
         elif op == 'ret':
-            if ins.v is None: w('  return;')
-            else: w('  return %s;' % s.val(ins.ty, ins.v))
+            if ins.v is None: w('  ' + s.ret_stmt(None))
+            else: w('  ' + s.ret_stmt(s.val(ins.ty, ins.v)))
         elif op == 'unreachable':
             w('  __ir_unreachable();')
         elif op in ('call', 'invoke'):
@@ -940,7 +983,7 @@ class Emitter:
                 if k == 'catch': cl.append(s.val(TPtr(TInt(8)), v))
             w('  __ir_lp_select((u8*)&%s, %d, (u8*[]){%s});' % (R, len(cl), ', '.join(cl + ['0'])))
         elif op == 'resume':
-            w('  __ir_resume(*(u8**)&%s); return%s;' % (s.val(ins.ty, ins.v), '' if isinstance(s.cur_ret, TVoid) else ' ' + s.val(s.cur_ret, ('undef',))))
+            w('  __ir_resume(*(u8**)&%s); %s' % (s.val(ins.ty, ins.v), s.exc_ret()))
         elif op == 'extractvalue':
             off, t = s.agg_off(ins.ty, ins.idx)
             src = s.val(ins.ty, ins.a)
@@ -980,16 +1023,17 @@ class Emitter:
             if ins.op == 'invoke':
                 w('  if (__ir_exc_pending) { %s } else { %s }' % (goto(blk.name, ins.unwind), goto(blk.name, ins.normal)))
             else:
-                w('  if (__ir_exc_pending) return%s;' % ('' if isinstance(s.cur_ret, TVoid) else ' ' + s.val(s.cur_ret, ('undef',))))
+                w('  if (__ir_exc_pending) %s' % s.exc_ret())
         if callee[0] == 'g':
             nm = callee[1]; base = nm[1:]
             if base.startswith(s.INTRIN_IGNORE):
                 if ins.op == 'invoke': w('  ' + goto(blk.name, ins.normal))
                 return
+            cst = '_c' if len(ins.args) > 2 and ins.args[2][1][0] == 'int' else ''   # constant length: CBMC's built-in; dynamic length: bounded byte loop
             if base.startswith('llvm.memcpy') or base.startswith('llvm.memmove'):
-                return finish('__ir_%s(%s, %s, (u64)%s)' % ('memcpy' if 'memcpy' in base else 'memmove', args[0], args[1], args[2]))
+                return finish('__ir_%s%s(%s, %s, (u64)%s)' % ('memcpy' if 'memcpy' in base else 'memmove', cst, args[0], args[1], args[2]))
             if base.startswith('llvm.memset'):
-                return finish('__ir_memset(%s, %s, (u64)%s)' % (args[0], args[1], args[2]))
+                return finish('__ir_memset%s(%s, %s, (u64)%s)' % (cst, args[0], args[1], args[2]))
             if base.startswith('llvm.expect'): return finish(args[0])
             mm = re.match(r'llvm\.(umin|umax|smin|smax)\.i(\d+)', base)
             if mm:
@@ -1003,7 +1047,15 @@ class Emitter:
             if base.startswith('llvm.'):
                 # generic: call a model named __ir_llvm_xxx
                 return finish('__ir_%s(%s)' % (re.sub(r'[^A-Za-z0-9_]', '_', base), ', '.join(args)))
+            if getattr(s, 'cur_res', False) and base == 'pistache_verif_yield':
+                k = len(s.res_pcs) + 1; s.res_pcs.append(k)
+                w('  F->yield_point = (int)%s; F->pc = %d; return 1; R_%d: ;' % (args[0], k, k))
+                if ins.op == 'invoke': w('  ' + goto(blk.name, ins.normal))
+                return
             s.need_funcs[nm] = True
+            if getattr(s, 'cur_res', False) and nm in s.resumable:
+                s.emit_res_call(nm, args, R, w)
+                return finish(R if R else '0')
             va = (nm in m.decls and m.decls[nm][2]) or (nm in m.funcs and m.funcs[nm].va)
             if va:
                 # varargs: cast through prototype of actual call
@@ -1021,9 +1073,22 @@ class Emitter:
         w('  { u8* fp_ = %s;' % fp)
         for c_ in cands:
             s.need_funcs[c_] = True
+            if getattr(s, 'cur_res', False) and c_ in s.resumable:
+                w('    if (fp_ == (u8*)%s) {' % s.gname(c_)); s.emit_res_call(c_, args, R, w); w('    } else')
+                continue
             w('    if (fp_ == (u8*)%s) { %s%s(%s); } else' % (s.gname(c_), R + ' = ' if R else '', s.gname(c_), ', '.join(args)))
         w('    { %s%s(%s); } }' % (R + ' = ' if R else '', dn, ', '.join(['fp_'] + args)))
         return finish('0' if not R else R)
+
+    def emit_res_call(s, callee, args, R, w):
+        f2 = s.mod.funcs[callee]
+        k = len(s.res_pcs) + 1; s.res_pcs.append(k)
+        sub = 'sub_%d' % k
+        s.res_fields.append('struct frame_%s %s;' % (s.gname(callee), sub))
+        w('  F->%s.pc = 0;' % sub)
+        for (t, n), a in zip(f2.params, args): w('  F->%s.v_%s = %s;' % (sub, cid(n), a))
+        w('  R_%d: if (rstep_%s(&F->%s)) { F->yield_point = F->%s.yield_point; F->pc = %d; return 1; }' % (k, s.gname(callee), sub, sub, k))
+        if R and not isinstance(f2.ret, TVoid): w('  %s = F->%s.ret;' % (R, sub))
 
     def vtable_slots(s):
         """vtable global name -> {slot index (relative to the address point): function name}"""
@@ -1187,6 +1252,7 @@ typedef int8_t i8; typedef int16_t i16; typedef int32_t i32; typedef int64_t i64
 extern int __ir_exc_pending;
 void __ir_unreachable(void); void __ir_trap(void);
 u8* __ir_memcpy(u8*, u8*, u64); u8* __ir_memmove(u8*, u8*, u64); u8* __ir_memset(u8*, u8, u64);
+u8* __ir_memcpy_c(u8*, u8*, u64); u8* __ir_memmove_c(u8*, u8*, u64); u8* __ir_memset_c(u8*, u8, u64);
 void __ir_atomic_begin(void); void __ir_atomic_end(void); void __ir_fence(void);
 void __ir_resume(u8*); u32 __ir_typeid_for(u8*);
 void __ir_lp_select(u8* lp, int n, u8** clauses); void __ir_bad_indirect(void); void __ir_landingpad(u8* lp);
@@ -1197,7 +1263,7 @@ def main():
     ap = argparse.ArgumentParser()
     ap.add_argument('out'); ap.add_argument('files', nargs='+')
     ap.add_argument('--roots', default=''); ap.add_argument('--stub', default=''); ap.add_argument('--stubfile')
-    ap.add_argument('--info'); ap.add_argument('--globals', default='')
+    ap.add_argument('--info'); ap.add_argument('--globals', default=''); ap.add_argument('--resumable', default='')
     a = ap.parse_args()
     roots = [r for r in a.roots.split(',') if r]; stubs = set(x for x in a.stub.split(',') if x)
     if a.stubfile: stubs |= set(open(a.stubfile).read().split())
@@ -1206,13 +1272,30 @@ def main():
     for f in a.files:
         t = open(f).read(); h.update(t.encode()); parse_module(t, mod)
     em = Emitter(mod, stubs)
+    em.resumable = set()
+    if a.resumable:
+        def callees(f):
+            out = set()
+            for b in f.blocks:
+                for ins in b.insts:
+                    if ins.op in ('call', 'invoke') and ins.callee[0] == 'g': out.add(ins.callee[1])
+            return out
+        direct = {n: callees(f) for n, f in mod.funcs.items()}
+        em.resumable = {n for n, c in direct.items() if '@pistache_verif_yield' in c}
+        # virtual/indirect calls: any function whose address is taken and that is resumable may be a devirtualisation candidate
+        changed = True
+        while changed:
+            changed = False
+            for n, c in direct.items():
+                if n not in em.resumable and (c & em.resumable or (any(ins.op in ('call', 'invoke') and ins.callee[0] != 'g' for b in mod.funcs[n].blocks for ins in b.insts) and n[1:] in a.resumable.split(','))):
+                    em.resumable.add(n); changed = True
     for r in roots:
         if '@' + r not in mod.funcs and '@' + r not in mod.decls: raise SystemExit('ir2c: root not in module: ' + r)
         em.need_funcs['@' + r] = True
     for g_ in [x for x in a.globals.split(',') if x]:
         if '@' + g_ not in mod.globals: raise SystemExit('ir2c: global not in module: ' + g_)
         em.need_globals['@' + g_] = True
-    done = set(); bodies = []; protos = []
+    done = set(); bodies = []; protos = []; res_bodies = {}
     gl_done = set(); gl_defs = []; gl_inits = []
     progress = True
     translated = []
@@ -1224,7 +1307,13 @@ def main():
             if nm in mod.funcs and nm[1:] not in stubs:
                 f = mod.funcs[nm]; em.cur_ret = f.ret
                 protos.append(em.cproto(nm, f.ret, [t for t, _ in f.params], f.va) + ';')
-                bodies.append(em.emit_function(f)); translated.append(nm[1:])
+                body = em.emit_function(f); translated.append(nm[1:])
+                if nm in em.resumable:
+                    args_ = ', '.join('%s a%d' % (em.ctype(t), i) for i, (t, _) in enumerate(f.params)) or 'void'
+                    body += '\n%s %s(%s) { __ir_unreachable(); %s }' % (em.ctype(f.ret), em.gname(nm), args_, '' if isinstance(f.ret, TVoid) else 'return (%s)%s;' % (em.ctype(f.ret), '{{0}}' if em.ctype(f.ret).startswith('agg') else '0'))
+                    res_bodies[em.gname(nm)] = body
+                else:
+                    bodies.append(body)
             elif nm in mod.funcs:
                 f = mod.funcs[nm]
                 protos.append(em.cproto(nm, f.ret, [t for t, _ in f.params], f.va) + '; /* stubbed */')
@@ -1238,6 +1327,15 @@ def main():
             gl_done.add(nm); progress = True
             d, ini = em.emit_global(nm)
             gl_defs.append(d); gl_inits.extend(ini)
+    # resumable functions: callee frames must be complete before their callers
+    ordered = []; left = dict(res_bodies)
+    while left:
+        prog = False
+        for n_ in list(left):
+            deps = [d for d in left if d != n_ and ('struct frame_%s ' % d) in left[n_]]
+            if not deps: ordered.append(left.pop(n_)); prog = True
+        if not prog: raise SystemExit('ir2c: recursive resumable functions: ' + ', '.join(left))
+    bodies = ordered + bodies
     dispatch_bodies = []
     with open(a.out, 'w') as fo:
         fo.write(PRELUDE)
